@@ -211,6 +211,97 @@ func c16MergeSig(a, b c16Case) string {
 	return strings.Join(d, ",")
 }
 
+var c16E2EHosts = [][2]string{{"h.example.net", "127.0.5.1"}, {"g.example.net", "127.0.5.1"}, {"k.example.net", "127.0.5.2"}}
+
+// c16E2EOne returns (constructible, violation detail).
+func c16E2EOne(side, a, b string) (bool, string) {
+	cfg := RCfg{Name: "svc.example.com, h.example.net, g.example.net, k.example.net, 127.0.5.1, 127.0.5.2", DialogTimeout: 1200, Hosts: c16E2EHosts,
+		Listens: []RListen{{Addr: "127.0.0.1", UDP: 5060, Backends: []string{"udp://127.0.1.1:7000", "udp://127.0.1.2:7000", "udp://127.0.1.3:7000"}}}}
+	w := StartRelayWorld(SimOpts{}, cfg)
+	defer w.Close()
+	seq := 0
+	party := func(u string) (string, string) {
+		if side == "from" {
+			return "<" + u + ">;tag=fa", "<sip:bob@svc.example.com>"
+		}
+		return "<sip:alice@ua.example.net>;tag=fa", "<" + u + ">"
+	}
+	est := func(u string) string {
+		seq++
+		f, t := party(u)
+		m := MsgSpec{Method: "INVITE", RURI: "sip:bob@svc.example.com", Vias: []string{fmt.Sprintf("SIP/2.0/UDP 127.0.0.9:5060;branch=z9hG4bKe%d", seq)}, From: f, To: t, CallID: "e2e", CSeq: "1 INVITE"}.Build()
+		w.Observe()
+		w.SendUDP("127.0.0.9:5060", "127.0.0.1:5060", m.Render())
+		obs := w.Observe()
+		if len(obs.Pkts) != 1 {
+			return ""
+		}
+		rel, err := ReadWire(obs.Pkts[0].Data)
+		if err != nil {
+			return ""
+		}
+		w.SendUDP(obs.Pkts[0].To, "127.0.0.1:5060", ResponseTo(rel, 200, "tt").Render())
+		w.Observe()
+		return obs.Pkts[0].To
+	}
+	probe := func(u string) []string {
+		seq++
+		f, t := party(u)
+		m := MsgSpec{Method: "INFO", RURI: "sip:bob@svc.example.com", Vias: []string{fmt.Sprintf("SIP/2.0/UDP 127.0.0.9:5060;branch=z9hG4bKe%d", seq)}, From: f, To: t + ";tag=tt", CallID: "e2e", CSeq: fmt.Sprintf("%d INFO", seq)}.Build()
+		w.Observe()
+		w.SendUDP("127.0.0.9:5060", "127.0.0.1:5060", m.Render())
+		var to []string
+		for _, p := range w.Observe().Pkts {
+			to = append(to, p.To)
+		}
+		return to
+	}
+	x, y := est(a), est(b)
+	if x == "" || y == "" || x == y {
+		return false, ""
+	}
+	pa, pb := probe(a), probe(b)
+	if len(pa) != 1 || pa[0] != x || len(pb) != 1 || pb[0] != y {
+		return true, fmt.Sprintf("service with hosts %v: two dialogs with the same Call-ID and tags whose %s URIs are %s and %s were answered by %s and %s; afterwards a request of the first went to %v and one of the second to %v", c16E2EHosts, side, a, b, x, y, pa, pb)
+	}
+	return true, ""
+}
+
+// c16E2E: the identity as the running proxy uses it (a service with a hosts section): two dialogs that
+// differ only in the host of one party's URI - a configured name, the address configured for it,
+// another name configured with the same address - are established through different backends; each
+// must keep its own pin.
+func c16E2E(c *Ctx) {
+	uris := []string{"sip:u@h.example.net", "sip:u@127.0.5.1", "sip:u@g.example.net", "sip:u@k.example.net", "sip:u@127.0.5.2:5060", "sip:u@127.0.5.2"}
+	for _, side := range []string{"from", "to"} {
+		for _, a := range uris {
+			for _, b := range uris {
+				if a == b {
+					continue
+				}
+				ok, viol := c16E2EOne(side, a, b)
+				c.Res.Evaluations++
+				c.Res.Executions++
+				if ok {
+					c.Res.Nontrivial++
+					c.Count("e2e_pairs_established_through_different_backends", 1)
+				}
+				if viol != "" {
+					c.Violate("e2e-merge|"+side, "different-dialogs-share-a-pin", viol, map[string]string{"e2e_side": side, "a": a, "b": b})
+				}
+			}
+		}
+	}
+}
+
+func c16Hash(s string) uint64 {
+	h := uint64(14695981039346656037)
+	for i := 0; i < len(s); i++ {
+		h = (h ^ uint64(s[i])) * 1099511628211
+	}
+	return h
+}
+
 func c16Run(c *Ctx) {
 	if c.Worker != 0 {
 		return
@@ -218,6 +309,7 @@ func c16Run(c *Ctx) {
 	implToRef := map[string]c16Case{}
 	refToImpl := map[string]c16Case{}
 	implOf := map[string]string{}
+	var allIDs []uint64 // hash of the identifier of every enumerated message, in enumeration order
 	decos := c16DecoSets(c.Thorough())
 	for _, cid := range c16CallIDs {
 		for _, ft := range c16Tags {
@@ -233,6 +325,7 @@ func c16Run(c *Ctx) {
 									cs := c16Case{cid, ft, tt, fu, tu, swap, resp, dc}
 									ref := c16Ref(cs)
 									impl, bad := c16Impl(cs)
+									allIDs = append(allIDs, c16Hash(impl+"\x00"+bad))
 									c.Res.Evaluations++
 									c.Res.Executions++
 									if ref != "" {
@@ -282,6 +375,56 @@ func c16Run(c *Ctx) {
 			}
 		}
 	}
+	// volume: a long-lived process sees many more dialogs; their identifiers are pairwise distinct and
+	// the identifiers computed earlier do not change
+	nvol := 12000
+	if c.Thorough() {
+		nvol = 60000
+	}
+	seenVol := map[string]int{}
+	for i := 0; i < nvol; i++ {
+		cs := c16Case{fmt.Sprintf("vol-%d", i%97), fmt.Sprintf("f%d", i), fmt.Sprintf("t%d", i/3), fmt.Sprintf("sip:u%d@h%d.example.net", i, i%11), "sip:bob@svc.example.com", i%2 == 1, i%3 == 1, nil}
+		impl, bad := c16Impl(cs)
+		c.Res.Evaluations++
+		c.Res.Executions++
+		if j, dup := seenVol[impl]; bad != "" || impl == "" || dup {
+			c.Violate("merge|volume", "different-dialogs-same-identifier", fmt.Sprintf("volume run: dialog %d got identifier %q (undecodable: %q, identifier already used by dialog %d: %v)", i, impl, bad, j, dup), cs)
+			break
+		}
+		seenVol[impl] = i
+	}
+	// second enumeration: every message again, in the same order
+	k := 0
+	unstable := false
+	for _, cid := range c16CallIDs {
+		for _, ft := range c16Tags {
+			for _, tt := range c16Tags {
+				for _, fu := range c16URIs {
+					for _, tu := range c16URIs {
+						for _, swap := range []bool{false, true} {
+							for _, resp := range []bool{false, true} {
+								for _, dc := range decos {
+									if unstable || k >= len(allIDs) || c.Expired() {
+										continue
+									}
+									cs := c16Case{cid, ft, tt, fu, tu, swap, resp, dc}
+									impl, bad := c16Impl(cs)
+									c.Res.Executions++
+									if c16Hash(impl+"\x00"+bad) != allIDs[k] {
+										unstable = true
+										c.Violate("unstable|volume", "identifier-changes-over-time", fmt.Sprintf("message %q: the identifier computed now (%q), after the whole enumeration and %d further dialogs, differs from the one computed the first time", c16Bytes(cs), impl, nvol), map[string]string{"rerun": "whole-enumeration"})
+									}
+									k++
+								}
+							}
+						}
+					}
+				}
+			}
+		}
+	}
+	c.Count("identifiers_recomputed_after_volume", int64(k))
+	c16E2E(c)
 	c.Res.States = int64(len(refToImpl))
 	c.Count("distinct_reference_dialogs", int64(len(refToImpl)))
 	c.Count("distinct_implementation_identifiers", int64(len(implToRef)))
@@ -289,9 +432,27 @@ func c16Run(c *Ctx) {
 
 func init() {
 	addCheck(&Check{ID: "C16", Level: "exploration", Workers: 1,
-		Rule: "all assignments of Call-ID (4) x from-tag (5 incl. absent) x to-tag (5) x From URI (8) x To URI (8), each rendered in both orientations, as request and response, with every single decoration (thorough: every subset of 8 decorations); the partition induced by GetDialog() must coincide with the partition induced by the reference key (Call-ID, unordered pair of (tag, URI core)) - checked by hashing both keys, which is equivalent to comparing all pairs; non-trivial = message carries both tags",
+		Rule: "all assignments of Call-ID (4) x from-tag (5 incl. absent) x to-tag (5) x From URI (8) x To URI (8), each rendered in both orientations, as request and response, with every single decoration (thorough: every subset of 8 decorations); the partition induced by GetDialog() must coincide with the partition induced by the reference key (Call-ID, unordered pair of (tag, URI core)) - checked by hashing both keys, which is equivalent to comparing all pairs; then 12000 (thorough 60000) further dialogs (pairwise distinct identifiers) after which the whole enumeration is repeated and every identifier must be the one computed the first time; plus, through a running proxy whose service has a hosts section, every ordered pair of 6 URIs that differ in host spelling (configured name, its address, another name with the same address, with / without port) on the From and on the To side: two dialogs established through different backends keep their own pins; non-trivial = message carries both tags",
 		Run:  c16Run,
 		Replay: func(c *Ctx, raw json.RawMessage) string {
+			var e2e map[string]string
+			if json.Unmarshal(raw, &e2e) == nil && e2e["rerun"] != "" {
+				// history-dependent: only the whole enumeration reproduces it
+				cc := &Ctx{ID: "C16", Tier: c.Tier, Res: newResult(), vmap: map[string]*Violation{}, Deadline: c.Deadline, NWorkers: 1}
+				c16Run(cc)
+				for _, v := range cc.Res.Violations {
+					if v.Clause == "identifier-changes-over-time" {
+						return v.Clause
+					}
+				}
+				return ""
+			}
+			if json.Unmarshal(raw, &e2e) == nil && e2e["e2e_side"] != "" {
+				if _, viol := c16E2EOne(e2e["e2e_side"], e2e["a"], e2e["b"]); viol != "" {
+					return "different-dialogs-share-a-pin"
+				}
+				return ""
+			}
 			var pair []c16Case
 			if err := json.Unmarshal(raw, &pair); err != nil || len(pair) != 2 {
 				var one c16Case
